@@ -441,4 +441,214 @@ theorem exec_append (E : Env) (fs : FS) (h1 h2 : List Op) : exec E fs (h1 ++ h2)
   | nil => rfl
   | cons o h ih => simp [exec, ih]
 
+/-! ### frames of the composite operations -/
+
+/-- write_registered_file / write_unregistered_file touch neither the identifier file nor any outside path -/
+theorem writeState_frame (E : Env) (del mk : Bool → Loc) (c : Str) (fs : FS)
+    (h1 : ∀ d, Loc.id ≠ del d) (h2 : ∀ d, Loc.id ≠ mk d) :
+    (writeState E del mk c fs).1.ext = fs.ext ∧ (writeState E del mk c fs).1.node .id = fs.node .id := by
+  obtain ⟨mid, a, b⟩ := writeState_onlyMk E del mk c fs
+  exact ⟨b.1.trans a.1, (b.2 _ h2).trans (a.2 _ h1)⟩
+
+theorem writeState_not_id (E : Env) (del mk : Bool → Loc) (c : Str) (fs : FS) (x : Str) :
+    (writeState E del mk c fs).2 ≠ .id x := by
+  rcases writeState_res E del mk c fs with h | h <;> simp [h.1]
+
+theorem genId_node_ne (E : Env) (fs : FS) (new : Bool) (r : Option Str) (f : Str) (l : Loc) (hl : l ≠ .id) :
+    (genId E fs new r f).1.node l = fs.node l := by
+  rcases genId_cases E fs new r f with ⟨c, _, _, _, hg⟩ | ⟨m, hg⟩
+  · rw [hg]
+  · rw [hg]; exact wtdWrite_node_ne E fs .id l m hl
+
+theorem fetch_cases (E : Env) (fs : FS) (r : Option Str) (f : Str) :
+    fetch E fs r f = genId E fs false r f ∨ fetch E fs r f = (fs, .done) := by
+  unfold fetch; split <;> simp
+
+theorem fetch_node_ne (E : Env) (fs : FS) (r : Option Str) (f : Str) (l : Loc) (hl : l ≠ .id) :
+    (fetch E fs r f).1.node l = fs.node l := by
+  rcases fetch_cases E fs r f with h | h <;> rw [h]
+  exact genId_node_ne E fs false r f l hl
+
+/-- a look-up that finds a non-empty identifier file reads it and writes nothing -/
+theorem fetch_reuse (E : Env) (fs : FS) (r : Option Str) (f c : Str) (h : readsAs E fs = some c) (hc : c ≠ []) :
+    fetch E fs r f = (fs, ofCanon c) := by
+  unfold fetch
+  simp [idIsFile, h, genId_reuse E fs r f c h hc]
+
+theorem ofCanon_ne_done (c : Str) : ofCanon c ≠ .done := by
+  unfold ofCanon; split <;> simp
+
+/-! ### exclusivity of the markers -/
+
+/-- no configuration directory holds both `.registered` and `.unregistered` (as file, symlink or directory) -/
+def Excl (E : Env) (fs : FS) : Prop :=
+  ∀ d, look E fs (.reg d) = .absent ∨ look E fs (.unreg d) = .absent
+
+theorem Excl.of_shrinks {E : Env} {fs fs' : FS} (h : Excl E fs) (s : Shrinks E fs fs') : Excl E fs' := by
+  intro d
+  rcases h d with h | h
+  · left; rcases s (.reg d) with e | e
+    · rw [e]; exact h
+    · exact e
+  · right; rcases s (.unreg d) with e | e
+    · rw [e]; exact h
+    · exact e
+
+theorem Excl.of_markers_same {E : Env} {fs fs' : FS} (h : Excl E fs) (same : ∀ l, l ≠ .id → fs'.node l = fs.node l) :
+    Excl E fs' := by
+  intro d
+  have a := same (.reg d) (by simp)
+  have b := same (.unreg d) (by simp)
+  simpa [look, a, b] using h d
+
+/-- after a write_*_file that returned, the opposite markers are gone -/
+theorem writeState_done_del_absent (E : Env) (del mk : Bool → Loc) (c : Str) (fs : FS) (hdm : ∀ d d', del d ≠ mk d')
+    (hdone : (writeState E del mk c fs).2 = .done) (d : Bool) :
+    look E (writeState E del mk c fs).1 (del d) = .absent := by
+  rcases writeState_res E del mk c fs with ⟨_, hok, hfs⟩ | ⟨herr, _⟩
+  · rw [hfs, onlyMk_look (writeMarkers_onlyMk E mk c _) E (del d) (fun d' => hdm d d')]
+    exact deleteMarkers_ok E del fs hok d
+  · rw [herr] at hdone; cases hdone
+
+theorem register_done_excl (E : Env) (c : Str) (fs : FS) (h : (writeState E .unreg .reg c fs).2 = .done) :
+    Excl E (writeState E .unreg .reg c fs).1 :=
+  fun d => Or.inr (writeState_done_del_absent E .unreg .reg c fs (by intro d d'; simp) h d)
+
+theorem unregister_done_excl (E : Env) (c : Str) (fs : FS) (h : (writeState E .reg .unreg c fs).2 = .done) :
+    Excl E (writeState E .reg .unreg c fs).1 :=
+  fun d => Or.inl (writeState_done_del_absent E .reg .unreg c fs (by intro d d'; simp) h d)
+
+theorem writeState_err_shrinks (E : Env) (del mk : Bool → Loc) (c : Str) (fs : FS)
+    (h : (writeState E del mk c fs).2 ≠ .done) : Shrinks E fs (writeState E del mk c fs).1 := by
+  rcases writeState_res E del mk c fs with ⟨hd, _, _⟩ | ⟨_, hfs⟩
+  · exact absurd hd h
+  · rw [hfs]; exact deleteMarkers_shrinks E del fs
+
+/-- write_registered_file preserves exclusivity whether it returns or raises half-way -/
+theorem register_excl (E : Env) (c : Str) (fs : FS) (h : Excl E fs) : Excl E (writeState E .unreg .reg c fs).1 := by
+  by_cases hd : (writeState E .unreg .reg c fs).2 = .done
+  · exact register_done_excl E c fs hd
+  · exact h.of_shrinks (writeState_err_shrinks E _ _ c fs hd)
+
+theorem unregister_excl (E : Env) (c : Str) (fs : FS) (h : Excl E fs) : Excl E (writeState E .reg .unreg c fs).1 := by
+  by_cases hd : (writeState E .reg .unreg c fs).2 = .done
+  · exact unregister_done_excl E c fs hd
+  · exact h.of_shrinks (writeState_err_shrinks E _ _ c fs hd)
+
+theorem unregisterAndDrop_excl (E : Env) (fs : FS) (h : Excl E fs) : Excl E (unregisterAndDrop E fs).1 := by
+  unfold unregisterAndDrop
+  simp only
+  split
+  · exact (unregister_excl E _ fs h).of_shrinks (wtdDelete_shrinks E _ .id)
+  · exact unregister_excl E _ fs h
+
+theorem unregisterAndDrop_not_id (E : Env) (fs : FS) (x : Str) : (unregisterAndDrop E fs).2 ≠ .id x := by
+  unfold unregisterAndDrop
+  simp only
+  split
+  · unfold ofOk; split <;> simp
+  · exact writeState_not_id E _ _ _ fs x
+
+/-- the unregistration paths unlink; they never touch an outside path -/
+theorem unregisterAndDrop_ext (E : Env) (fs : FS) : (unregisterAndDrop E fs).1.ext = fs.ext := by
+  unfold unregisterAndDrop
+  simp only
+  have fr := (writeState_frame E .reg .unreg timeStamp fs (by intro d; simp) (by intro d; simp)).1
+  split
+  · exact (wtdDelete_onlyAt E _ .id).1.trans fr
+  · exact fr
+
+theorem connUnregister_excl (E : Env) (fs : FS) (h : Excl E fs) : Excl E (connUnregister E fs).1.1 := by
+  unfold connUnregister; split
+  · exact unregisterAndDrop_excl E fs h
+  · exact h
+
+theorem handleUnregistration_excl (E : Env) (fs : FS) (force : Bool) (h : Excl E fs) :
+    Excl E (handleUnregistration E fs force).1 := by
+  unfold handleUnregistration
+  simp only
+  have hu := connUnregister_excl E fs h
+  split
+  · split
+    · exact unregisterAndDrop_excl E _ hu
+    · exact hu
+  · exact hu
+
+theorem registrationCheck_excl (E : Env) (fs : FS) (http : Option Bool) (r : Option Str) (f : Str) (h : Excl E fs) :
+    Excl E (registrationCheck E fs http r f).1 := by
+  have hg : Excl E (fetch E fs r f).1 := h.of_markers_same (fun l hl => fetch_node_ne E fs r f l hl)
+  have pr : ∀ (st : Option Bool),
+      Excl E (match (if (st != some true && idIsFile E (fetch E fs r f).1 && existsFollow E (fetch E fs r f).1 (.reg false)) = true
+          then some true else st) with
+        | some true => writeState E .unreg .reg timeStamp (fetch E fs r f).1
+        | some false => unregisterAndDrop E (fetch E fs r f).1
+        | none => ((fetch E fs r f).1, Res.done)).1 := by
+    intro st
+    split
+    · exact register_excl E _ _ hg
+    · exact unregisterAndDrop_excl E _ hg
+    · exact hg
+  unfold registrationCheck
+  simp only
+  split
+  · exact pr _
+  · exact pr _
+  · exact hg
+
+theorem connUnregister_not_id (E : Env) (fs : FS) (x : Str) : (connUnregister E fs).1.2 ≠ .id x := by
+  unfold connUnregister; split
+  · exact unregisterAndDrop_not_id E fs x
+  · simp
+
+theorem handleUnregistration_not_id (E : Env) (fs : FS) (force : Bool) (x : Str) :
+    (handleUnregistration E fs force).2 ≠ .id x := by
+  unfold handleUnregistration
+  simp only
+  split
+  · split
+    · exact unregisterAndDrop_not_id E _ x
+    · exact connUnregister_not_id E fs x
+  · exact connUnregister_not_id E fs x
+
+theorem registrationCheck_not_id (E : Env) (fs : FS) (http : Option Bool) (r : Option Str) (f x : Str) :
+    (registrationCheck E fs http r f).2 ≠ .id x := by
+  have pr : ∀ (st : Option Bool),
+      (match (if (st != some true && idIsFile E (fetch E fs r f).1 && existsFollow E (fetch E fs r f).1 (.reg false)) = true
+          then some true else st) with
+        | some true => writeState E .unreg .reg timeStamp (fetch E fs r f).1
+        | some false => unregisterAndDrop E (fetch E fs r f).1
+        | none => ((fetch E fs r f).1, Res.done)).2 ≠ .id x := by
+    intro st
+    split
+    · exact writeState_not_id E _ _ _ _ x
+    · exact unregisterAndDrop_not_id E _ x
+    · simp
+  unfold registrationCheck
+  simp only
+  split
+  · exact pr _
+  · exact pr _
+  · rename_i hne _
+    intro hx
+    exact hne x hx
+
+/-- a registration check that is not told "unregistered" leaves a non-empty identifier file alone -/
+theorem registrationCheck_keeps (E : Env) (fs : FS) (http : Option Bool) (r : Option Str) (f c : Str)
+    (hh : http ≠ some false) (hr : readsAs E fs = some c) (hc : c ≠ []) :
+    readsAs E (registrationCheck E fs http r f).1 = some c := by
+  unfold registrationCheck
+  simp only [fetch_reuse E fs r f c hr hc]
+  split
+  · -- the identifier was read: status = http ∈ {found, unreachable}
+    split
+    · have fr := writeState_frame E .unreg .reg timeStamp fs (by intro d; simp) (by intro d; simp)
+      rw [readsAs_congr E fs _ fr.1 fr.2]; exact hr
+    · rename_i hst
+      split at hst
+      · cases hst
+      · exact absurd hst hh
+    · exact hr
+  · rename_i hd; exact absurd hd (ofCanon_ne_done c)
+  · exact hr
+
 end IV.ClientState
